@@ -355,7 +355,7 @@ pub fn run(ctx: &Ctx) {
     drive_random(ctx, &SUBS[4], ctx.n(100_000, 50_000_000), 400);
     drive_random(ctx, &SUBS[5], ctx.n(50_000, 20_000_000), 200);
     drive_random(ctx, &SUBS[6], ctx.n(100_000, 50_000_000), 300);
-    drive_random(ctx, &SUBS[7], ctx.n(10_000, 5_000_000), 1200);
+    drive_random(ctx, &SUBS[7], ctx.n(10_000, 5_000_000), 4000);
     if !ctx.quick() && !ctx.failed() {
         crate::fuzzing::drive_fuzz(ctx, "bytes", 1_000_000);
         crate::fuzzing::drive_fuzz(ctx, "modules", 300_000);
